@@ -317,7 +317,7 @@ PROPS["C16"] = {"gen": lambda tier: c16_simple(tier) + c16_mg(tier) + c16_wg(tie
 
 
 KIND_NAMES = {0: "dir", 1: "und", 2: "dmg", 3: "umg", 4: "dwg", 5: "uwg"}
-EQ_Q = {0: "eq", 1: "ne", 2: "sym", 3: "refl", 4: "copyctor", 5: "copyassign", 6: "copyctor-indep", 7: "copyassign-indep"}
+EQ_Q = {0: "eq", 1: "ne", 2: "sym", 3: "refl", 4: "copyctor", 5: "copyassign", 6: "copyctor-indep", 7: "copyassign-indep", 8: "noop-removal", 9: "add-then-remove"}
 
 
 def eq_ob(kind, lt, ng, nh, q, **kw):
@@ -337,7 +337,7 @@ def c06(tier):
     if tier == "thorough":
         configs += [(0, 4), (0, 5), (1, 3), (1, 4), (1, 5), (0, 3)]
     for kind, lt in configs:
-        for q in (0, 1, 2, 3, 4, 5, 6, 7):
+        for q in (0, 1, 2, 3, 4, 5, 6, 7, 8, 9):
             if tier == "quick" and q in (1, 2, 5, 7) and not (kind in (0, 1) and lt == 1):
                 continue
             obs.append(eq_ob(kind, lt, 3, 3, q))
@@ -417,6 +417,10 @@ def c07(tier):
                             ob = {"id": "C07/%s%s/n%d/%s%s%s" % (KIND_NAMES[kind], "-nolabel" if (kind < 2 and lt == 0) else "", n, name, ("-arg%d" % pos) if pair else "", "" if badv is None else "-bad%d" % badv),
                                   "src": "reject.cpp", "defs": defs, "bounds": graph_bounds(defs), "count_ub": True, "optional_reach": [""] if n < 3 else []}
                             obs.append(ob)
+                            if kind < 2 and lt == 1 and n == 3 and (e == 21 or (e in (0, 5, 7, 8) and pos == 0)):
+                                # the same call from a state that carries orphan labels (reachable through the documented setEdgeLabel(..., force=true))
+                                d2 = dict(defs); d2["ORPHAN"] = None
+                                obs.append(dict(ob, id=ob["id"] + "-orphanlabels", defs=d2, optional_reach=[""]))
     return obs
 
 
